@@ -588,6 +588,13 @@ func c06xCanon(v interface{}) string {
 
 // c06xExec runs the ops selected by mask (nil = all) on a fresh gorm.Open over the world's data.
 func c06xExec(w *c06xWorld, h c06xHist, mask []bool) (run c06xRun) {
+	return c06xExecMode(w, h, mask, false)
+}
+
+// flat = the plain `Session(&Session{})` derivations among the executed ops are left out: the chain continues on the
+// instance itself.  A flag-less Session is an identity for the chain that follows, so the flattened chain is "the
+// same chain" written without intermediate handles (only meaningful for a single path, i.e. with a mask).
+func c06xExecMode(w *c06xWorld, h c06xHist, mask []bool, flat bool) (run c06xRun) {
 	run.Obs = map[int]c06xObs{}
 	db := w.open(h.Cfg)
 	hs := []*gorm.DB{db}
@@ -624,6 +631,10 @@ func c06xExec(w *c06xWorld, h c06xHist, mask []bool) (run c06xRun) {
 		var before c06xSnap
 		if c06xIsDerive(o.N) {
 			before = c06xSnapshot(s)
+		}
+		if flat && o.N == "sess" && o.F == 0 && c06xClones(h)[o.S] != 1 {
+			hs = append(hs, s)
+			continue
 		}
 		switch o.N {
 		case "sess":
@@ -703,7 +714,11 @@ func c06xExec(w *c06xWorld, h c06xHist, mask []bool) (run c06xRun) {
 				js[j] = clause.Join{Type: clause.InnerJoin, Table: clause.Table{Name: "c06_cos", Alias: al},
 					ON: clause.Where{Exprs: []clause.Expression{clause.Eq{Column: clause.Column{Table: tbl, Name: "co_id"}, Value: clause.Column{Table: al, Name: "id"}}}}}
 			}
-			t = s.Clauses(clause.From{Joins: js})
+			fr := clause.From{Joins: js}
+			if o.B%2 == 1 {
+				fr.Tables = []clause.Table{{Name: clause.CurrentTable}}
+			}
+			t = s.Clauses(fr)
 		case "hint":
 			t = s.Clauses(c06xHint{Key: c06xHintKeys[o.A%len(c06xHintKeys)], Pos: o.B % 3, Text: fmt.Sprint("h", i)})
 		case "builder":
@@ -1020,6 +1035,52 @@ func c06xLooseClauses(c string) string {
 	return strings.Join(keep, " ")
 }
 
+// clone mode of every handle (0 chain instance, 1 starts chains from an empty statement, 2 from a copy).  A plain
+// Session on a clone-1 handle is NOT an identity: Session{NewDB} keeps the receiver's statement (only hidden), and the
+// plain Session after it makes it visible again — gorm's behaviour on the unchanged tree, left alone here.
+func c06xClones(h c06xHist) []int {
+	cl := []int{1}
+	for _, o := range h.Ops {
+		c := 0
+		src := 1
+		if o.S < len(cl) {
+			src = cl[o.S]
+		}
+		switch o.N {
+		case "skip":
+			c = 1
+		case "sess":
+			c = 2
+			if o.F&c06fNewDB != 0 {
+				c = 1
+			}
+			if o.F&c06fInitialized != 0 {
+				c = 0
+			}
+		case "ctx", "debug":
+			c = 2
+		case "begin":
+			c = 2
+			if src == 1 {
+				c = 1
+			}
+		}
+		cl = append(cl, c)
+	}
+	return cl
+}
+
+// c06xFlattens: the path of finisher op k contains a flag-less Session taken from a chain instance
+func c06xFlattens(h c06xHist, k int) bool {
+	m := h.mask(k)
+	for i, o := range h.Ops {
+		if m[i] && o.N == "sess" && o.F == 0 && c06xClones(h)[o.S] != 1 {
+			return true
+		}
+	}
+	return false
+}
+
 func c06xJudge(w *c06xWorld, h c06xHist) (full c06xRun, bad []c06xMismatch) {
 	full = c06xExec(w, h, nil)
 	if full.Panic != "" {
@@ -1047,6 +1108,18 @@ func c06xJudge(w *c06xWorld, h c06xHist) (full c06xRun, bad []c06xMismatch) {
 			f.Clauses, a.Clauses = c06xLooseClauses(f.Clauses), c06xLooseClauses(a.Clauses)
 			if f.Err != "" && f.Err == a.Err {
 				f.Rows, a.Rows = 0, 0 // a failing finisher does not reset the RowsAffected the earlier query left on the instance
+			}
+		}
+		if ok && len(after[i+1]) == 0 && c06xFlattens(h, i) {
+			// second reference: the same chain written WITHOUT the plain Session(&Session{}) derivations on its path
+			fl := c06xExecMode(w, h, h.mask(i), true)
+			if b, ok2 := fl.Obs[i]; ok2 && fl.Panic == "" {
+				f2 := f
+				b.Stmt, f2.Stmt = "", ""
+				if !c06xSameObs(f2, b) {
+					bad = append(bad, c06xMismatch{Op: i, InHist: f2, Alone: b, What: "flattened: " + c06xWhat(f2, b)})
+					continue
+				}
 			}
 		}
 		if ok && !c06xSameObs(f, a) {
